@@ -73,6 +73,7 @@ type LockOp struct {
 	Acquire  bool
 	Write    bool // Lock/Unlock (vs RLock/RUnlock)
 	Deferred bool
+	Try      bool // TryLock/TryRLock: acquired only on the edge where the call returned true
 	Instr    ssa.Instruction
 }
 
@@ -108,6 +109,10 @@ func lockOpOf(in ssa.Instruction) *LockOp {
 	case "Unlock":
 		op.Write = true
 	case "RUnlock":
+	case "TryLock":
+		op.Acquire, op.Write, op.Try = true, true, true
+	case "TryRLock":
+		op.Acquire, op.Try = true, true
 	default:
 		return nil
 	}
@@ -222,9 +227,46 @@ type LockAnalysis struct {
 	directBlk map[*ssa.Function][]string
 }
 
+// tryEdge: the TryLock whose success is implied by taking the edge p->b, if any.
+func tryEdge(p, b *ssa.BasicBlock) *LockOp {
+	if len(p.Instrs) == 0 || len(p.Succs) != 2 || p.Succs[0] == p.Succs[1] {
+		return nil
+	}
+	ifi, ok := p.Instrs[len(p.Instrs)-1].(*ssa.If)
+	if !ok {
+		return nil
+	}
+	cond, neg := ifi.Cond, false
+	for {
+		u, ok := cond.(*ssa.UnOp)
+		if !ok || u.Op != token.NOT {
+			break
+		}
+		cond, neg = u.X, !neg
+	}
+	call, ok := cond.(*ssa.Call)
+	if !ok {
+		return nil
+	}
+	op := lockOpOf(call)
+	if op == nil || !op.Try {
+		return nil
+	}
+	idx := 0
+	if neg {
+		idx = 1
+	}
+	if p.Succs[idx] != b {
+		return nil
+	}
+	acq := *op
+	acq.Try = false
+	return &acq
+}
+
 func transfer(ls Lockset, op *LockOp, may bool) {
-	if op.Deferred {
-		return // runs at function exit
+	if op.Deferred || op.Try {
+		return // deferred: runs at function exit; try: acquired on the success edge only (see tryEdge)
 	}
 	k := op.Key()
 	if op.Acquire {
@@ -303,8 +345,14 @@ func (fl *FnLocks) solve() {
 				seenPred := false
 				for _, p := range b.Preds {
 					if o, ok := mustOut[p]; ok {
-						must = meetMust(must, o)
-						may = joinMay(may, mayOut[p])
+						mo, yo := o, mayOut[p]
+						if t := tryEdge(p, b); t != nil {
+							mo, yo = mo.clone(), yo.clone()
+							transfer(mo, t, false)
+							transfer(yo, t, true)
+						}
+						must = meetMust(must, mo)
+						may = joinMay(may, yo)
 						seenPred = true
 					}
 				}
@@ -684,7 +732,7 @@ func (la *LockAnalysis) OrderEdges(fns []*ssa.Function) []OrderEdge {
 		}
 		Instrs(fn, func(in ssa.Instruction) {
 			if o := lockOpOf(in); o != nil {
-				if o.Acquire && !o.Deferred {
+				if o.Acquire && !o.Deferred && !o.Try { // a TryLock never waits, so it closes no cycle
 					_, may := fl.At(in)
 					for k := range may {
 						add(k[:strings.Index(k, "@")], o.Class, in.Pos(), fn, "direct")
